@@ -11,7 +11,6 @@ import (
 	"bytes"
 	"context"
 	"fmt"
-	"io"
 	"log/slog"
 	"os"
 	"sort"
@@ -88,8 +87,10 @@ type vzWorld struct {
 	pendingCrash bool
 
 	lastFaultStep int
+	progressAt    int // step of the last finalization anywhere (0 = none yet)
 	notes         []string
 	seenProposals map[string][]string // "h/r" -> proposal hashes seen on the wire
+	lastErr       map[string]string   // node ident -> last ERROR log line of its engine
 
 	orc vzOracles
 }
@@ -125,17 +126,75 @@ type vzNode struct {
 func (nd *vzNode) ident() string { return fmt.Sprintf("n%d.%d", nd.idx, nd.inc) }
 func (nd *vzNode) isDead() bool  { nd.w.mu.Lock(); defer nd.w.mu.Unlock(); return nd.dead }
 
-func vzLogger() *slog.Logger {
-	var wr io.Writer = io.Discard
-	lvl := slog.LevelError + 8
-	if os.Getenv("VSIM_ENGINE_LOG") != "" {
-		wr, lvl = os.Stderr, slog.LevelDebug
+// gone reports that incarnation inc of the node is no longer the running one.
+func (nd *vzNode) gone(inc int) bool {
+	nd.w.mu.Lock()
+	defer nd.w.mu.Unlock()
+	return nd.dead || nd.inc != inc
+}
+
+// vzLogHandler keeps the last ERROR record per node (used to name the cause when a component
+// stops silently) and optionally echoes everything to stderr.
+type vzLogHandler struct {
+	w     *vzWorld
+	node  string
+	attrs string
+	echo  slog.Handler
+}
+
+func (h vzLogHandler) Enabled(_ context.Context, l slog.Level) bool {
+	return l >= slog.LevelError || h.echo != nil
+}
+func (h vzLogHandler) Handle(ctx context.Context, r slog.Record) error {
+	if r.Level >= slog.LevelError && h.node != "" {
+		msg := r.Message
+		r.Attrs(func(a slog.Attr) bool {
+			if a.Key == "err" {
+				msg += ": " + a.Value.String()
+			}
+			return true
+		})
+		if !strings.Contains(msg, "context canceled") {
+			h.w.mu.Lock()
+			h.w.lastErr[h.node] = msg
+			h.w.mu.Unlock()
+		}
 	}
-	return slog.New(slog.NewTextHandler(wr, &slog.HandlerOptions{Level: lvl}))
+	if h.echo != nil {
+		return h.echo.Handle(ctx, r)
+	}
+	return nil
+}
+func (h vzLogHandler) WithAttrs(as []slog.Attr) slog.Handler {
+	n := h
+	for _, a := range as {
+		if a.Key == "vznode" {
+			n.node = a.Value.String()
+		}
+	}
+	if h.echo != nil {
+		n.echo = h.echo.WithAttrs(as)
+	}
+	return n
+}
+func (h vzLogHandler) WithGroup(g string) slog.Handler {
+	n := h
+	if h.echo != nil {
+		n.echo = h.echo.WithGroup(g)
+	}
+	return n
+}
+
+func (w *vzWorld) newLogger() *slog.Logger {
+	h := vzLogHandler{w: w}
+	if os.Getenv("VSIM_ENGINE_LOG") != "" {
+		h.echo = slog.NewTextHandler(os.Stderr, &slog.HandlerOptions{Level: slog.LevelDebug})
+	}
+	return slog.New(h)
 }
 
 func newVzWorld(s *vsimcore.Sim, cfg vzConfig) *vzWorld {
-	w := &vzWorld{s: s, cfg: cfg, log: vzLogger(), blocked: map[[2]int]bool{}, stalled: map[int]int{}, seenProposals: map[string][]string{}}
+	w := &vzWorld{s: s, cfg: cfg, lastErr: map[string]string{}, blocked: map[[2]int]bool{}, stalled: map[int]int{}, seenProposals: map[string][]string{}}
 	privVals := tmconsensustest.DeterministicValidatorsEd25519(cfg.nVal)
 	for i := range privVals {
 		privVals[i].Val.Power = cfg.powers[i]
@@ -147,6 +206,7 @@ func newVzWorld(s *vsimcore.Sim, cfg vzConfig) *vzWorld {
 	fx.PrivVals = privVals
 	w.fx = fx
 	w.codec = tmjson.MarshalCodec{CryptoRegistry: &fx.Registry}
+	w.log = w.newLogger()
 	w.orc.init(w)
 	return w
 }
@@ -221,6 +281,9 @@ func vzRelay[T any](ctx context.Context, s *vsimcore.Sim, id, name string, src <
 			return
 		case v := <-src:
 			s.ParkID(id, "relay", name)
+			if ctx.Err() != nil {
+				return
+			}
 			observe(v)
 			select {
 			case dst <- v:
@@ -260,6 +323,9 @@ func (st *vzStrategy) park(label string) { st.nd.w.s.ParkID(st.nd.ident(), "stra
 func (st *vzStrategy) EnterRound(ctx context.Context, rv tmconsensus.RoundView, out chan<- tmconsensus.Proposal) error {
 	st.park("enter")
 	nd := st.nd
+	if nd.gone(st.inc) {
+		return context.Canceled
+	}
 	nd.w.mu.Lock()
 	nd.curH, nd.curR = rv.Height, rv.Round
 	nd.w.mu.Unlock()
@@ -317,6 +383,9 @@ func (st *vzStrategy) pick(phs []tmconsensus.ProposedHeader) (string, bool) {
 
 func (st *vzStrategy) ConsiderProposedBlocks(ctx context.Context, phs []tmconsensus.ProposedHeader, _ tmconsensus.ConsiderProposedBlocksReason) (string, error) {
 	st.park("consider")
+	if st.nd.gone(st.inc) {
+		return "", context.Canceled
+	}
 	if hsh, ok := st.pick(phs); ok {
 		st.nd.w.s.Logf("%s consider -> %x", st.nd.ident(), trunc(hsh))
 		return hsh, nil
@@ -326,6 +395,9 @@ func (st *vzStrategy) ConsiderProposedBlocks(ctx context.Context, phs []tmconsen
 
 func (st *vzStrategy) ChooseProposedBlock(ctx context.Context, phs []tmconsensus.ProposedHeader) (string, error) {
 	st.park("choose")
+	if st.nd.gone(st.inc) {
+		return "", context.Canceled
+	}
 	hsh, _ := st.pick(phs)
 	if hsh == "" && !st.nd.byz {
 		// nothing acceptable: prevote nil, unless locked
@@ -341,6 +413,9 @@ func (st *vzStrategy) ChooseProposedBlock(ctx context.Context, phs []tmconsensus
 func (st *vzStrategy) DecidePrecommit(ctx context.Context, vs tmconsensus.VoteSummary) (string, error) {
 	st.park("decide")
 	nd := st.nd
+	if nd.gone(st.inc) {
+		return "", context.Canceled
+	}
 	nd.w.mu.Lock()
 	h := nd.curH
 	nd.w.mu.Unlock()
@@ -401,6 +476,9 @@ func (r vzRT) mk(kind string, h uint64, rd uint32) (<-chan struct{}, func()) {
 	w := r.nd.w
 	w.mu.Lock()
 	t := &vzTimer{name: fmt.Sprintf("n%d.%d:%s:%d/%d", r.nd.idx, r.inc, kind, h, rd), node: r.nd.idx, inc: r.inc, ch: make(chan struct{})}
+	if r.nd.dead || r.nd.inc != r.inc {
+		t.cancelled = true // requested by a process that is already dead
+	}
 	w.timers = append(w.timers, t)
 	w.mu.Unlock()
 	w.orc.onTimerStart(r.nd, kind, h, rd)
@@ -428,10 +506,14 @@ func (r vzRT) CommitWaitTimer(_ context.Context, h uint64, rd uint32) (<-chan st
 
 type vzSigner struct {
 	nd    *vzNode
+	inc   int
 	inner tmconsensus.PassthroughSigner
 }
 
 func (sg vzSigner) record(kind string, h uint64, r uint32, content []byte) {
+	if sg.nd.gone(sg.inc) {
+		return
+	}
 	sg.nd.w.orc.onSign(sg.nd, kind, h, r, content)
 }
 func (sg vzSigner) Prevote(ctx context.Context, vt tmconsensus.VoteTarget) ([]byte, []byte, error) {
@@ -490,14 +572,15 @@ func (w *vzWorld) start(nd *vzNode) {
 	w.mu.Unlock()
 	nctx, cancel := context.WithCancel(vsimcore.WithIdent(w.rootCtx, nd.ident()))
 	nd.cancel = cancel
-	wd, wctx := gwatchdog.NewNopWatchdog(nctx, w.log)
+	nlog := w.log.With("vznode", nd.ident())
+	wd, wctx := gwatchdog.NewNopWatchdog(nctx, nlog)
 	nd.wd = wd
 	nd.ctx = wctx
 	id := nd.ident()
 	s := w.s
 
 	bc := vzBroadcaster{make(chan tmconsensus.ProposedHeader), make(chan tmconsensus.PrevoteSparseProof), make(chan tmconsensus.PrecommitSparseProof)}
-	gs := tmgossip.NewChattyStrategy(wctx, w.log, bc)
+	gs := tmgossip.NewChattyStrategy(wctx, nlog, bc)
 	nd.gs = gs
 	// network output pump
 	go func() {
@@ -561,7 +644,7 @@ func (w *vzWorld) start(nd *vzNode) {
 	ready := nd.ready
 	go func() {
 		defer close(ready)
-		e, err := New(wctx, w.log,
+		e, err := New(wctx, nlog,
 			WithGenesis(eg),
 			WithCommittedHeaderStore(vzCommittedHeaderStore{st}),
 			WithFinalizationStore(vzFinalizationStore{st}),
@@ -579,7 +662,7 @@ func (w *vzWorld) start(nd *vzNode) {
 			WithBlockFinalizationChannel(finCh),
 			WithInternalRoundTimer(vzRT{nd, inc}),
 			WithWatchdog(wd),
-			WithSigner(vzSigner{nd: nd, inner: tmconsensus.PassthroughSigner{Signer: w.fx.PrivVals[nd.idx].Signer, SignatureScheme: w.fx.SignatureScheme}}),
+			WithSigner(vzSigner{nd: nd, inc: inc, inner: tmconsensus.PassthroughSigner{Signer: w.fx.PrivVals[nd.idx].Signer, SignatureScheme: w.fx.SignatureScheme}}),
 		)
 		w.mu.Lock()
 		nd.e, nd.newErr = e, err
@@ -641,6 +724,9 @@ func (w *vzWorld) crash(nd *vzNode) {
 // ---------------------------------------------------------------- network
 
 func (w *vzWorld) broadcast(from *vzNode, cm tmcodec.ConsensusMessage, kind string) {
+	if from.isDead() {
+		return // a dying process sends nothing more
+	}
 	b, err := w.codec.MarshalConsensusMessage(cm)
 	if err != nil {
 		panic(err)
@@ -705,9 +791,8 @@ func (w *vzWorld) deliver(m *vzMsg) {
 		return
 	}
 	go func() {
-		select {
-		case <-ready:
-		case <-ndctx.Done():
+		<-ready
+		if ndctx.Err() != nil {
 			return
 		}
 		w.mu.Lock()
@@ -800,9 +885,13 @@ func (w *vzWorld) liveTimers() []*vzTimer {
 // run drives the world until done() or nothing is left to do. extra() may contribute actions.
 func (w *vzWorld) run(done func() bool, extra func() []vsimcore.Action) (stalled bool) {
 	s := w.s
-	for s.Steps < w.cfg.maxSteps && !s.Failed() {
+	for s.Steps < w.cfg.maxSteps && !s.Failed() && !s.Expired() {
 		vsimcore.Wait()
 		w.orc.afterStep()
+		if s.Steps-w.progressAt > w.cfg.maxSteps/4 {
+			s.Probe("no_progress_cutoff")
+			return true
+		}
 		if s.Failed() || done() {
 			return false
 		}
